@@ -81,9 +81,53 @@ def extra_sync(chk):
                     "one lane or a different timeout outcome is C12's (%d timeout outcomes)" % cnt.get("outcome:timeout", 0))
 
 
+DEEPQ = {"quick": "70,130", "thorough": "33,65,70,129,130"}
+
+
+def extra_deepq(chk):
+    """A timeout covers the whole operation, also the part before the driver has taken the request: the peer stops reading, one
+    request blocks the driver in its write, 70 / 130 untimed operations queue up behind it (more than any plausible bound of
+    an internal queue), then an operation with a timeout of two ticks is started and three ticks pass. In the model the
+    request queue is unbounded and Start is one step, so the clock cannot pass the deadline while the caller waits (`time`);
+    the trace is validated by TraceLdapConn with 140 operation slots."""
+    import os, json
+    import common as C
+    tr = os.path.join(chk.dir, "deepq.ndjson")
+    rp = os.path.join(chk.dir, "deepq.json")
+    C.harness("conn-run", ["deepq", tr, DEEPQ[chk.tier], rp])
+    rep = C.load(rp)
+    chk.report(rep, "deep request queue")
+    nsc = len(DEEPQ[chk.tier].split(","))
+    if rep["counters"].get("deepq_scripts_followed", 0) != nsc:
+        chk.tool_error("the deep-queue scripts were not followed to the end")
+    nev, diags, res = L.validate(chk, tr, cfg="TraceLdapConn.deep.cfg")
+    chk.traces += rep["evaluations"]
+    events = [json.loads(l) for l in open(tr)]
+    got = sum(1 for e in events if e["ev"] == "Ret" and e.get("r") == "timeout")
+    if got < nsc and not diags:
+        chk.tool_error("deep queue: %d of %d timed operations ended in the timeout error and the model did not object" % (got, nsc))
+    owned = {}
+    for idx, tag in diags:
+        own = L.owner_of(tag, events, idx)
+        if own == "C12" or (isinstance(own, tuple) and "C12" in own):
+            owned.setdefault(tag, []).append(idx)
+        else:
+            chk.notes.append("deep queue: difference owned by %s: %s at event %d" % (L._own_str(own), tag, idx))
+    chk.extra.setdefault("trace_validation", []).append(dict(profile="deepq", scenarios=nsc, events=nev, depths=DEEPQ[chk.tier],
+                                                             diag_owned={k: len(v) for k, v in owned.items()}))
+    for tag, idxs in owned.items():
+        sd, k, j0 = L.scenario_of(events, idxs[0])
+        chk.problem("deepq:" + tag, dict(count=len(idxs), event=events[idxs[0] - 1], before=events[max(j0, idxs[0] - 6):idxs[0] - 1]),
+                    "I->S: TraceLdapConn on the deep-queue scenario")
+    chk.rule.append("deep queue: %s untimed operations queued behind a write the peer does not take, then one operation with a "
+                    "timeout of two ticks, three ticks, the peer reads again; validated by TraceLdapConn (140 slots)" % DEEPQ[chk.tier])
+    os.remove(tr)
+
+
 def extra_all(chk):
     extra(chk)
     extra_sync(chk)
+    extra_deepq(chk)
 
 
 def run(tier):
